@@ -81,7 +81,7 @@ Fixpoint okn (pc : bool) (e : expr) (ct cf : nat) : bool :=
       | BMul | BDiv | BMod => (cp <=? 11) && okn pc r ct cf
       | BPow => (cp <=? 11) && okn pc r ct cf
       end
-  | ECond _ _ f => (cf <=? 0) && okn false f ct cf             (* _cond reads both branches with expr() *)
+  | ECond _ _ f => (cp <=? 0) && okn pc f ct cf                (* _cond reads the branches with expr() / printExpr() *)
   | EAssign _ r | EAugAssign _ _ r => (cp <=? 0) && okn pc r ct cf
   | EIncr _ true x => okn pc x ct cf
   | EGetline _ tg None =>                                      (* next could be an lvalue or "<" *)
@@ -144,7 +144,7 @@ Fixpoint fits (pc : bool) (k : nat) (e : expr) : Prop :=
       | BPow => k <= 11 /\ fits pc 12 l /\ ok pc l TPow = true /\ fits pc 11 r
       end
   | ECond c t f =>
-      k <= 2 /\ fits pc 3 c /\ ok pc c TQuestion = true /\ fits false 0 t /\ fits false 0 f
+      k <= 2 /\ fits pc 3 c /\ ok pc c TQuestion = true /\ fits pc 0 t /\ fits pc 0 f
   | EAssign l r => k = 0 /\ is_lvalue l = true /\ fits pc 1 l /\ ok pc l TAssign = true /\ fits pc 0 r
   | EAugAssign op l r =>
       k = 0 /\ is_lvalue l = true /\ fits pc 1 l /\ ok pc l TAssign = true /\ fits pc 0 r /\
